@@ -44,5 +44,17 @@ where fitsList (D : Nat) : Nat → List Tree → Prop
   | _, [] => True
   | l, k :: ks => fits D l k ∧ fitsList D l ks
 
+/-- every cell of the tree, refined or not, in file order: (level, refined?, value) — what the amr files store -/
+def flat : Nat → Tree → List (Nat × Bool × Nat)
+  | l, .leaf v => [(l, false, v)]
+  | l, .node v ks => (l, true, v) :: flatList (l+1) ks
+where flatList : Nat → List Tree → List (Nat × Bool × Nat)
+  | _, [] => []
+  | l, k :: ks => flat l k ++ flatList l ks
+
+/-- the per-cell rule of the loader with a level cap `L`: levels above `L` are not read; below it a cell is kept iff it
+    has no son; on it every cell is kept -/
+def keepCell (L : Nat) (c : Nat × Bool × Nat) : Bool := decide (c.1 ≤ L) && (!c.2.1 || c.1 == L)
+
 end Tree
 end Osyris.Spec
